@@ -110,6 +110,10 @@ const TypesSchema = `module types { namespace "urn:types"; prefix t; revision 0;
     leaf-list lb { type boolean; }
     leaf-list ld { type decimal64 { fraction-digits 2; } }
     leaf-list lu { type uint64; }
+    leaf lr { type leafref { path "../i8"; } }
+    leaf lre { type leafref { path "../e"; } }
+    leaf-list llr { type leafref { path "../s"; } }
+    leaf-list lli8 { type leafref { path "../i8"; } }
   }
   list ent { key k; leaf k { type string; } leaf x { type int32; } container sub { leaf y { type string; } } }
   leaf last { type string; }
